@@ -6,6 +6,8 @@ Trace == ndJsonDeserialize(IOEnv.TRACE)
 VARIABLES l, bad, nbad, ntr
 tvars == <<l, bad, nbad, ntr>>
 MaxBad == 40
+\* deviations are kept per class (operation, failed checks, deviation flags): a flood of one class never hides another
+KeepBad(bd, op, fl, dv) == Cardinality({b \in bd : b[3] = op /\ b[4] = fl /\ b[5] = dv}) < 6 /\ Cardinality(bd) < 40 * MaxBad
 Flag(cond, name) == IF cond THEN {} ELSE {name}
 Targets == {"mpt", "wnode", "wpath", "wproof"}
 EventFlags(e) ==
@@ -17,7 +19,7 @@ TraceNext ==
   /\ LET e == Trace[l] f == EventFlags(e) IN
      /\ l' = l + 1 /\ ntr' = ntr + 1
      /\ nbad' = IF f = {} THEN nbad ELSE nbad + 1
-     /\ bad' = IF f = {} \/ Cardinality(bad) >= MaxBad THEN bad ELSE bad \cup {<<e.tid, l, e.op, f, {}>>}
+     /\ bad' = IF f = {} \/ ~KeepBad(bad, e.op, f, {}) THEN bad ELSE bad \cup {<<e.tid, l, e.op, f, {}>>}
 TraceSpec == TraceInit /\ [][TraceNext]_tvars
 Report == l <= Len(Trace) \/ PrintT(<<"VERIF_RESULT", l - 1, ntr, nbad, bad>>)
 =============================================================================
